@@ -37,6 +37,8 @@ def mk_track(case):
             import numpy as np
             vals = list(np.array(vals, dtype=np.float64))
         tr.createAnalyticalFeature(k, vals)
+    if case.get('nodata') is not None:
+        tr.no_data_value = case['nodata']         # the marker a file reader leaves on its tracks (a value of the features may be equal to it): operators compute on values
     if case.get('extra'):                         # a fourth feature under another name (assignments then overwrite it)
         tr.createAnalyticalFeature(case['extra'][0], [_f(v) for v in case['extra'][1]])
     return tr
@@ -86,7 +88,7 @@ def rand_track(rng):
     pz = rng.choice([0.0, 0.03, 0.03, 0.3])                           # ... and one in four is rich in zeros
     vals = lambda: [None if rng.random() < pn else (0 if rng.random() < pz else rng.choice([1, 2, 3, -1, -2, 0.5, 4])) for _ in range(k)]
     return {'X': [float(rng.randint(-3, 3)) for _ in range(k)], 'Y': [float(rng.randint(-3, 3)) for _ in range(k)],
-            'Z': [float(rng.randint(0, 2)) for _ in range(k)], 'a': vals(), 'b': vals(), 's': vals()}
+            'Z': [float(rng.randint(0, 2)) for _ in range(k)], 'a': vals(), 'b': vals(), 's': vals(), 'nodata': rng.choice([None, None, None, 0, 2, -1, 0.5, 1])}
 
 
 # ------------------------------------------------------------------ stream programs: random strings, well formed or not (model tie only)
